@@ -87,10 +87,16 @@ theorem C15_misc (cfg : Cfg) (st0 : St) (mods : List ModSpec) (ios : List TaskIO
   obtain ⟨r, _, a, b, c, _⟩ := build_restores cfg st0 mods ios hcf hw
   exact ⟨r.filters, r.setTrace, r.pdbSaved, a, b, c⟩
 
-/-- **C15_config_failure.** A build whose configuration fails before any `pytask_post_parse` ran (the only
-configuration failures the campaign generates) touches nothing: the whole process state is unchanged. -/
+/-- **C15_config_failure.** A build whose configuration fails touches nothing the property names. If it fails before any
+`pytask_post_parse` ran (invalid option) the whole process state is unchanged; if it fails in `create_database`
+(`database.pytask_post_parse`, e.g. a corrupt database file) only the implementations pluggy calls *before* it have run —
+with the hook order read from the source these do not include `capture`, so no capturing was started; the only trace is
+the `ExecutionReport` / `Traceback` class variables set by `logging.pytask_post_parse` (no `pytask_unconfigure` follows). -/
 theorem C15_config_failure (cfg : Cfg) (st0 : St) (mods : List ModSpec) (ios : List TaskIO)
-    (hcf : cfg.configFails = true) : (runBuild cfg mods ios st0).w = st0.w ∧ (runBuild cfg mods ios st0).cm = st0.cm :=
+    (hcf : cfg.configFails = true) :
+    (∃ r, (runBuild cfg mods ios st0).w = { st0.w with py := { st0.w.py with reportVars := r } }) ∧
+    (runBuild cfg mods ios st0).cm = st0.cm ∧
+    (cfg.failsInDatabase = false → (runBuild cfg mods ios st0).w = st0.w) :=
   runBuild_configFails cfg st0 mods ios hcf
 
 /-- **C15_samebuilds_full** — the property at full strength: the `k`-th build of a process collects the same
@@ -134,7 +140,7 @@ example :
 
 /-- a mixed sequence (fd, sys, failing configuration, tee-sys, no) as an instance of `C15_noleak` -/
 example :
-    (runBuilds [⟨{ method := .fd }, [], ios1⟩, ⟨{ method := .sys }, [], ios1⟩, ⟨{ method := .fd, configFails := true }, [], []⟩,
+    (runBuilds [⟨{ method := .fd }, [], ios1⟩, ⟨{ method := .sys }, [], ios1⟩, ⟨{ method := .fd, configFails := true }, [], []⟩, ⟨{ method := .sys, configFails := true, failsInDatabase := true }, [], []⟩,
                 ⟨{ method := .teeSys }, [], ios1⟩, ⟨{ method := .no }, [], ios1⟩] { w := w0 }).w.os.count = 3 := by decide +kernel
 
 /-- the hypothesis of `C15_samebuilds_partial` on a two-module project, and its conclusion for the 3rd build -/
